@@ -18,7 +18,10 @@ out = ['# Seeded changes', '',
        'Each directory holds one change produced by an independent sub-agent that saw only the property text and a scratch worktree:',
        '`patch.diff`, the agent\'s demonstration (`demo_test.go.txt`), and `meta.json` (what it breaks, what it needs to manifest, what was run,',
        'and the result of every check).  Every change was confirmed here: it compiles, the unedited suite passes, the demonstration fails with it and passes without it.',
-       'Checks were run with `VERIF_REPO=<scratch worktree carrying the patch> ./check <id> quick` (equivalent to `git -C /repo apply`; /repo itself is never modified).', '',
+       'Checks were run with `VERIF_REPO=<scratch worktree carrying the patch> ./check <id> quick` (equivalent to `git -C /repo apply`; /repo itself is never modified).',
+       'The rows of rounds 1-2 (A-D) come from a run of all 19 checks with the machinery as it was after round 2, those of rounds 3-4 (E-H) from a run with the machinery after round 4;',
+       'the TARGET check of every change was then re-run with the final machinery and merged in (`rerun_at_verif_commit` in meta.json).  Runs under heavy machine load',
+       'occasionally end in exit 2 where an unloaded run finds the witness (solver time limits of the quick tier).', '',
        '| change | target | verdict | VIOLATION reported by | exit 2 (inconclusive) in | what it does / needs |', '|---|---|---|---|---|---|']
 for r in rows:
     out.append('| %s | %s | %s | %s | %s | %s |' % tuple(x.replace('|', '/') for x in r))
